@@ -436,7 +436,8 @@ def p_inlines(items):
         elif t == 'box':
             out.append('\\%s{%s}' % (n['cmd'], p_inlines(n['c'])))
         elif t == 'imath':
-            body = ' + '.join(n['words']) + '^2'
+            # (the exponent sometimes sits on a control word and is the last thing before the closing delimiter)
+            body = ' + '.join(n['words']) + ('^2', ' + \\alpha^2', '^{2}\\sigma^n')[sum(map(ord, n['words'][0])) % 3]
             out.append('$%s$' % body if n['style'] == '$' else '\\(%s\\)' % body)
         elif t == 'verb':
             out.append('\\verb%s%s%s' % (n['delim'], n['body'], n['delim']))
@@ -477,7 +478,7 @@ def p_blocks(blocks, ind=''):
         elif t == 'env':
             out.append('\\begin{%s}%s\n%s\\end{%s}\n' % (b['env'], '{6cm}' if b['env'] == 'minipage' else '', p_blocks(b['c']), b['env']))
         elif t == 'dmath':
-            body = ' = '.join(b['words'])
+            body = ' = '.join(b['words']) + ('', ' = \\lambda^n', '_1')[sum(map(ord, b['words'][0])) % 3]
             out.append('\\[ %s \\]\n' % body if b['style'] == '\\[' else '\\begin{displaymath} %s \\end{displaymath}\n' % body)
         elif t == 'equation':
             env = 'equation*' if b['star'] else 'equation'
